@@ -11,6 +11,7 @@ package main
 //     server/configuration.go (*Configurations).AcceptConfig;
 //   - bot/event.go (*Events).AddListener, (*Events).AddGeneric, sortPacketHandlers and bot/ingame.go
 //     (*Client).HandleGame, handleBundlePackets, handlePacket (the dispatcher);
+//   - bot/client.go warpConn (the reader and the writer goroutine) and (*Conn).ReadPacket / WritePacket / Close;
 //   - data/packetid/packetid.go: every constant of the iota blocks with its value.
 //
 // Only go/parser + go/ast are used.  Every function body is translated statement by statement, in
@@ -20,7 +21,7 @@ package main
 //     GWrite id args   conn.WritePacket(pk.Marshal(id, args...))
 //     GEcho            conn.WritePacket(p)
 //     GSetThreshold a  conn.SetThreshold(a)
-// control flow keeps its structure (GIf, GSwitch, GLoop, GLoopN, GFor, GRange, GLabel, GReturn, GBranch) and every other
+// control flow keeps its structure (GIf, GSwitch, GLoop, GLoopN, GFor, GRange, GLabel, GGo, GReturn, GBranch) and every other
 // statement is carried as its rendered text (GOther), so that ANY edit of these bodies changes the
 // generated term.  A statement or expression node outside the shapes handled below makes the
 // translator fail (non-zero exit of gotrans), which the check reports as a broken correspondence.
@@ -540,6 +541,17 @@ func (c *gctx) stmt(s ast.Stmt, ind string) ([]string, error) {
 			t += " " + x.Label.Name
 		}
 		return []string{"GBranch " + gq(t)}, nil
+	case *ast.GoStmt:
+		// go func() { body }(): the goroutine's body is translated like any block
+		fl, ok := x.Call.Fun.(*ast.FuncLit)
+		if !ok || len(x.Call.Args) != 0 || fl.Type.Params.NumFields() != 0 {
+			return nil, c.errf(s, "unknown go statement (want go func() { ... }())")
+		}
+		body, err := c.stmts(fl.Body.List, ind+"  ")
+		if err != nil {
+			return nil, err
+		}
+		return []string{"GGo " + gblock(body, ind)}, nil
 	case *ast.DeferStmt:
 		// deferred calls do not take part in the packet exchange of these functions (Close, deadline
 		// reset); the callee expression is kept, a function literal is kept as `func`
@@ -576,6 +588,11 @@ var gateFuncs = []gateFunc{
 	{"bot/ingame.go", "Client", "HandleGame", "bot_handle_game", "c.Conn", nil},
 	{"bot/ingame.go", "Client", "handleBundlePackets", "bot_handle_bundle_packets", "c.Conn", nil},
 	{"bot/ingame.go", "Client", "handlePacket", "bot_handle_packet", "c.Conn", nil},
+	// the queue-backed connection of the play phase
+	{"bot/client.go", "", "warpConn", "bot_warp_conn", "c", nil},
+	{"bot/client.go", "Conn", "ReadPacket", "bot_conn_read_packet", "", nil},
+	{"bot/client.go", "Conn", "WritePacket", "bot_conn_write_packet", "", nil},
+	{"bot/client.go", "Conn", "Close", "bot_conn_close", "", nil},
 }
 
 func genPacketIDs(repo string, out *bytes.Buffer) error {
